@@ -61,3 +61,94 @@ func histories(c *vf.Ctx) {
 		return out
 	})
 }
+
+// editedMessage: ONE Message object edited between Encode calls (a responder builds a response, sends it, and
+// reuses the object for the next query): after every sequence of three edits - a question or an answer added, a name
+// or RDATA replaced in place, a section assigned or emptied, the id / direction changed - with Encode called or not
+// after each of the first two, Encode gives what a FRESH Message with the same exported content gives, and the
+// library's decoder reads the content back.
+func editedMessage(c *vf.Ctx) {
+	type op struct {
+		name string
+		do   func(m *llmnr.Message)
+	}
+	rr := func(n string, d byte) llmnr.ResourceRecord {
+		return llmnr.ResourceRecord{Name: n, Type: llmnr.TypeA, Class: llmnr.ClassIN, TTL: 30, RDLength: 4, RData: []byte{10, 0, 0, d}}
+	}
+	ops := []op{
+		{"AddQuestion(host.local)", func(m *llmnr.Message) { m.AddQuestion("host.local", llmnr.TypeA, llmnr.ClassIN) }},
+		{"AddAnswer(host.local A 10.0.0.1)", func(m *llmnr.Message) { m.AddAnswer(rr("host.local", 1)) }},
+		{"AddAnswer(other.local A 10.0.0.2)", func(m *llmnr.Message) { m.AddAnswer(rr("other.local", 2)) }},
+		{"Questions[0].Name=HOST.local", func(m *llmnr.Message) {
+			if len(m.Questions) > 0 {
+				m.Questions[0].Name = "HOST.local"
+			}
+		}},
+		{"Answers[last].RData[3]=9", func(m *llmnr.Message) {
+			if n := len(m.Answers); n > 0 && len(m.Answers[n-1].RData) == 4 {
+				m.Answers[n-1].RData[3] = 9
+			}
+		}},
+		{"Answers[0].Name=x.y", func(m *llmnr.Message) {
+			if len(m.Answers) > 0 {
+				m.Answers[0].Name = "x.y"
+			}
+		}},
+		{"Answers=[z.local A 10.0.0.7]", func(m *llmnr.Message) { m.Answers = []llmnr.ResourceRecord{rr("z.local", 7)} }},
+		{"Answers=nil", func(m *llmnr.Message) { m.Answers = nil }},
+		{"Additional=[a.local]", func(m *llmnr.Message) { m.Additional = []llmnr.ResourceRecord{rr("a.local", 8)} }},
+		{"ID=0xBEEF", func(m *llmnr.Message) { m.ID = 0xBEEF }},
+		{"SetQuery", func(m *llmnr.Message) { m.SetQuery() }},
+	}
+	clone := func(m *llmnr.Message) *llmnr.Message {
+		f := llmnr.NewMessage()
+		f.Header = m.Header
+		f.Questions = append([]llmnr.Question{}, m.Questions...)
+		cp := func(in []llmnr.ResourceRecord) []llmnr.ResourceRecord {
+			out := []llmnr.ResourceRecord{}
+			for _, r := range in {
+				r.RData = append([]byte{}, r.RData...)
+				out = append(out, r)
+			}
+			return out
+		}
+		f.Answers, f.Authority, f.Additional = cp(m.Answers), cp(m.Authority), cp(m.Additional)
+		return f
+	}
+	n := 0
+	for a := range ops {
+		for b := range ops {
+			for d := range ops {
+				for obs := 0; obs < 4; obs++ {
+					m := llmnr.NewMessage()
+					m.ID = 0x0102
+					m.SetResponse()
+					m.AddQuestion("first.local", llmnr.TypeA, llmnr.ClassIN)
+					var hist []string
+					var out, want []byte
+					var err, werr error
+					pn, msg, where := vf.Try(func() {
+						for i, o := range []op{ops[a], ops[b], ops[d]} {
+							o.do(m)
+							hist = append(hist, o.name)
+							if i < 2 && obs&(1<<i) != 0 {
+								m.Encode()
+								hist = append(hist, "Encode")
+							}
+						}
+						fresh := clone(m)
+						out, err = m.Encode()
+						want, werr = fresh.Encode()
+					})
+					n++
+					c.Evals(1)
+					c.Case([]byte("llmnr.edit"), []byte{byte(a), byte(b), byte(d), byte(obs)})
+					c.Check("C09/history/edited-message-encodes-like-a-fresh-message-with-the-same-content", !pn && (err == nil) == (werr == nil) && fmt.Sprintf("%x", out) == fmt.Sprintf("%x", want), func() string {
+						return fmt.Sprintf("one Message {response, id 0x0102, question first.local}, history %v, then Encode() = %x (%v); a fresh Message with the same exported content encodes as %x (%v) (panic=%v %s %s)", hist, out, err, want, werr, pn, msg, where)
+					})
+				}
+			}
+		}
+	}
+	c.Set("edited_message_histories", n)
+}
